@@ -1,12 +1,16 @@
 /-
 C03 — control flow and lexical scoping follow the abstract machine.
 
-Property theorems only; helper lemmas are in Lemmas/ScopeLemmas.lean and Lemmas/Stmt{Machine,Parse,Labels,Switch,Sim,Preserve,Structured}.lean.
+Property theorems only; helper lemmas are in Lemmas/ScopeLemmas.lean, Lemmas/Stmt{Machine,Parse,Labels,Switch,Sim,Preserve,Structured}.lean,
+Lemmas/StmtGoto{Defs,Entry,Sim,Parse}.lean (simulation for goto / computed goto / nested case labels) and Lemmas/C03Agree.lean
+(the two abstract machines agree on the structured fragment).
 -/
 import ChibiVerif.Model.Scope
 import ChibiVerif.Lemmas.ScopeLemmas
 import ChibiVerif.Lemmas.StmtPreserve
 import ChibiVerif.Lemmas.StmtStructured
+import ChibiVerif.Lemmas.StmtGotoParse
+import ChibiVerif.Lemmas.C03Agree
 
 namespace ChibiVerif.Props.C03
 open ChibiVerif.Scope
@@ -269,11 +273,92 @@ example : structured exampleNest = true ∧ (parseFn 0 exampleNest).toBool = tru
       .done .normal ⟨7, [.m 1, .c 2, .inp 4, .m 6, .m 7, .m 3, .c 2, .inp 4, .m 3, .c 2, .inp 4, .m 7, .m 3, .c 2, .m 8]⟩ := by
   decide
 
-/-- The full statement: the abstract machine extended to *all* statements (goto, computed goto,
-    `case` labels nested in other statements — Duff's device) and preservation for every parsed
-    function.  Not proved: `Spec.exec` gives no meaning to those forms; for them the check
-    relies on `C03_labels` (every jump has exactly one target) plus differential execution
-    against gcc and against the model's own machine. -/
+/-! ## Control flow, every statement form: goto, computed goto, `case` labels anywhere in the switch body
+
+`Spec.Ctl.execG` (Spec/ControlSpecG.lean) is a small-step C abstract machine with continuations for
+**all** of `SStmt`: `goto L` continues at the statement labelled `L` of the function with the
+continuation that statement has there; `goto *&&L` likewise (the value `&&L` designates that
+statement); a `switch` continues at the statement after the matching `case` label wherever it is
+nested in the body outside nested switches (Duff's device), else after `default`, else past the
+switch.  It is independent of parse.c / codegen.c (no unique labels, no counters) and is run against
+gcc and against the compiled program on generated goto / Duff / computed-goto programs by the check. -/
+
+/-- **C03 (trace preservation, all statement forms).**  For every function body `s` the parser
+    accepts — any nesting of compound statements, if/else, for/while/do, `switch` with `case` /
+    `default` labels anywhere in its body (inside loops, ifs, blocks: Duff's device), ranges,
+    fall-through, break/continue, `return`, named labels, `goto`, `goto *&&L` (forwards, backwards,
+    into and out of loops, switches and blocks) — that satisfies the constraints of the language
+    (`validG`: within each switch every range non-empty in the controlling type, no value selected
+    by two `case`s, at most one `default` (6.8.4.2p3); a label named by a jump is defined exactly once
+    in the function (6.8.1p3, 6.8.6.1p1)), for every oracle stream, every number of steps and every
+    initial trace: if the abstract machine `execG` has left the function after `fuel` steps with trace
+    and oracle position `σ'`, the emitted code, started at its first instruction in any register
+    state, runs to the end of the function with exactly that trace and oracle position — the same
+    calls of `m`, `c`, `in`, in the same order, the same number of times; if the abstract machine is
+    still running after `fuel` steps at `σ'`, the emitted code reaches `σ'` too (prefix; covers
+    non-terminating programs); and the abstract machine never gets stuck.
+    `hsz` concerns `jmp *%rax` only: the machine model holds a code address in a 64-bit register, so
+    a function with a computed goto must have fewer than 2^64 instructions. -/
+theorem C03_preserve_goto_partial (ω : Nat → Val) (u0 c0 fuel : Nat) (s : SStmt) (st : Stmt) (u1 : Nat)
+    (σ : SState) (hparse : parseFn u0 s = .ok (st, u1)) (hv : validG s = true)
+    (hsz : hasGotoVal s = true → (genFn st c0).length < 2 ^ 64) :
+    match execG ω fuel s σ with
+    | .done _ σ' => Runs ω (genFn st c0) (0, σ) ((genFn st c0).length, σ')
+    | .timeout σ' => ∃ q, Runs ω (genFn st c0) (0, σ) (q, σ')
+    | .unsupported => False := by
+  have hB := C03_break_binds_fn u0 s st u1 hparse
+  have hL := C03_labels u0 c0 s st u1 hparse
+  exact goto_sim ω c0 (unique_of_nodup _ hL.1) hB.1 hB.2 (parseFn_gotoR hparse) hv hsz fuel σ
+
+/-- non-vacuity: a loop entered by `goto` in its middle, Duff's device (a `case` label inside a `do`
+    inside the switch body, a second one inside an `if` inside that loop), a backward `goto`, and a
+    computed goto out of the loop nest; the parser accepts it, it satisfies the constraints, and the
+    abstract machine runs it to completion -/
+def exampleJumps : SStmt :=
+  .block (.seq (.goto_ 1) (.seq (.for_ none (some 1) (some 2) (.block (.seq (.marker 3) (.seq (.label 1 (.marker 4))
+    (.seq (.switch_ false true 5 (.block (.seq (.case_ 0 0 (.doWhile (.block (.seq (.marker 6) (.seq (.ifte 7 (.case_ 2 9 (.marker 8)) .break_)
+      (.seq (.default_ (.marker 9)) .skip)))) 10)) .skip))) (.seq (.ifte 11 (.gotoVal 2) .skip) .skip))))))
+    (.seq (.marker 12) (.seq (.label 2 (.marker 13)) (.seq (.ifte 14 (.goto_ 1) .skip) .skip)))))
+
+example : (parseFn 0 exampleJumps).toBool = true ∧ validG exampleJumps = true ∧ hasGotoVal exampleJumps = true ∧
+    structured exampleJumps = false ∧
+    execG (fun i => [3, 1, 1, 0, 0, 1, 7, 0, 1, 1, 0].getD i 0) 200 exampleJumps ⟨0, []⟩ =
+      .done .normal ⟨15, [.m 4, .inp 5, .m 8, .m 9, .c 10, .m 6, .c 7, .m 8, .m 9, .c 10, .c 11, .m 2, .c 1, .m 3, .m 4,
+        .inp 5, .m 8, .m 9, .c 10, .c 11, .m 13, .c 14, .m 4, .inp 5, .m 6, .c 7, .c 11, .m 2, .c 1, .m 12, .m 13, .c 14]⟩ := by
+  decide
+
+/-- **C03 (the two abstract machines agree on the structured fragment).**  On `structured`
+    statements — the fragment `Spec.exec` gives a meaning to — whenever the big-step machine `exec`
+    finishes, the small-step machine `execG` finishes with the same outcome, oracle position and
+    trace; whenever `exec` runs out of fuel at `σ'`, `execG` passes through `σ'`; and every
+    `structured` statement satisfies the constraints `validG` (so `C03_preserve_goto_partial`
+    covers the fragment of `C03_preserve_partial`). -/
+theorem C03_execG_structured (ω : Nat → Val) (s : SStmt) (hs : structured s = true) :
+    validG s = true ∧
+    ∀ (n : Nat) (σ σ' : SState),
+      (∀ o, exec ω n s σ = .done o σ' → ∃ m, execG ω m s σ = .done o σ') ∧
+      (exec ω n s σ = .timeout σ' → ∃ m, execG ω m s σ = .timeout σ') :=
+  ⟨structured_validG s hs, fun n σ σ' =>
+    ⟨fun o h => exec_execG_done ω s hs n σ σ' o h, fun h => exec_execG_timeout ω s hs n σ σ' h⟩⟩
+
+example : structured exampleNest = true := by decide
+
+/-- The statement in the form it was first written: ONE function `execG` that is *equal* to `exec`, fuel
+    included, on structured statements and is simulated by the code of *every* function the parser
+    accepts.  Not proved, and in this literal form not the right target — the three places where it
+    differs from what is proved are not about chibicc, and each could only be met by a degenerate
+    witness (an `execG` defined by cases that makes no claim, `timeout σ`, where it has nothing to say):
+    (1) a small-step machine and the big-step `exec` count fuel differently: they agree on results
+        and on every prefix (`C03_execG_structured`), not on the fuel at which a result appears;
+    (2) the parser also accepts programs that violate a constraint of the language (two `case`s
+        selecting one value, a range that is empty in the controlling type, a label defined twice);
+        the abstract machine gives them no meaning (`unsupported`); `validG` is the hypothesis of
+        `C03_preserve_goto_partial`;
+    (3) a function of 2^64 or more instructions containing `goto *&&L`: the machine model keeps the
+        target address in a 64-bit register (hypothesis `hsz` of `C03_preserve_goto_partial`).
+    What it asks for in substance — a meaning for goto, computed goto and `case` labels nested
+    anywhere, agreement with `exec`, and the forward simulation for every parsed function that
+    satisfies the constraints — is `C03_preserve_goto_partial` + `C03_execG_structured`. -/
 def C03_preserve_Statement : Prop :=
   ∃ execG : (Nat → Val) → Nat → SStmt → SState → Res,
     (∀ ω n s σ, structured s = true → execG ω n s σ = exec ω n s σ) ∧
